@@ -7,6 +7,7 @@ from pyvc.sym import V, I, B, S, VBool, VInt, VObj, VTup, VSeq, VMap, VRec, VCls
 from pyvc.contract import (contract, lemma, specfn, audit, Desc, INT, NAT, POS, BOOL, STR, NONE, OBJ, OBJ_NN, LIST, TUPLE, SET,
                            FROZENSET, FLOAT, BYTES, DEC, DEC_ANY, Str, Seq, Obj, Cls, Rec, Tup, TRUE, FALSE, Const)
 from pyvc import contract as _C
+from pyvc.models import RecordModel
 from contracts.parsing import TRANSFORMER
 
 T = "utype/utils/transform.py"
@@ -202,14 +203,15 @@ def _spelled(ex, fr, tr, x):
 
 @contract(T, "TypeTransformer.to_bool", props=["C12", "C01", "C04"])
 class TO_BOOL:
-    """C12: under no_explicit_cast a value converts to bool only within the boolean group; under
+    """C12: under no_explicit_cast a value converts to bool only within the boolean group, which the documentation
+    (docs/en/references/options.md, "Transforming preferences") defines as `0, 1, True, False`; under
     no_data_loss only unambiguous booleans (== 1 / == 0 or the spelled TRUE/FALSE values)."""
     cases = {"bool": dict(self=TR(), data=BOOL), "int": dict(self=TR(), data=INT), "str": dict(self=TR(), data=STR),
              "none": dict(self=TR(), data=NONE)}
     result = BOOL
     returns_by_case = {
         "bool": {"same": "result == data"},
-        "int": {"no_cast_stays_in_its_group": "not self.no_explicit_cast",
+        "int": {"no_cast_stays_in_its_group": "implies(self.no_explicit_cast, data == 0 or data == 1)",
                 "no_loss_only_unambiguous": "implies(self.no_data_loss, data == 0 or data == 1 or spelled_bool(self, data))"},
         "str": {"no_cast_stays_in_its_group": "not self.no_explicit_cast",
                 "no_loss_only_unambiguous": "implies(self.no_data_loss, spelled_bool(self, data))"},
@@ -246,3 +248,108 @@ _selfcomp("TypeTransformer.to_null", {"none": dict(self=TR(), data=NONE), "str":
 _selfcomp("TypeTransformer.to_bool", {"bool": dict(self=TR(), data=BOOL), "int": dict(self=TR(), data=INT), "str": dict(self=TR(), data=STR),
                                       "none": dict(self=TR(), data=NONE)},
           "C12 subset clause for to_bool")
+
+
+# ------------------------------------------------------------------------------------ to_date (C12: a timed value never becomes a date)
+
+import datetime as _dt
+
+
+class _TimeModel(RecordModel):
+    """datetime.time as the code uses it: built by time(h, m), compared with == / !="""
+
+    def eq_(self, ex, a, b):
+        if a.model is not b.model:
+            return VBool(False)
+        ex.world.ext.use(ex, "datetime.time ==: field-wise on naive times (hour, minute, second, microsecond)")
+        g = lambda v: v.t if isinstance(v, VInt) else z3.IntVal(int(v))
+        return VBool(z3.And(*[g(a.fields[f]) == g(b.fields[f]) for f in ("hour", "minute", "second", "microsecond")]))
+
+
+class _DatetimeModel(RecordModel):
+    """a datetime instance: the calendar fields; .time() is its clock part (tzinfo dropped), .date() its date part
+    (a ghost function of the instance)"""
+
+    def getattr(self, ex, rec, name, node):
+        if name == "time":
+            def time_(ex_, a, k):
+                m = ex_.world.models["Time"]
+                return VRec(m, {f: rec.fields[f] for f in ("hour", "minute", "second", "microsecond")}, ref=ex_.fresh("clock", V))
+            return VFunc("datetime.time", time_)
+        if name == "date":
+            return VFunc("datetime.date", lambda ex_, a, k: VObj(z3.Function("date_part_of", V, V)(rec.ref)))
+        return RecordModel.getattr(self, ex, rec, name, node)
+
+    def isinstance_(self, ex, rec, c):
+        return z3.BoolVal(c.py in (object, _dt.datetime, _dt.date))
+
+
+_CLOCK = dict(hour=NAT, minute=NAT, second=NAT, microsecond=NAT)
+
+
+def _install_dt(world):
+    world.models["Time"] = _TimeModel(world, T, "<datetime.time>", dict(_CLOCK))
+    world.models["Datetime"] = _DatetimeModel(world, T, "<datetime.datetime>", dict(_CLOCK))
+
+    def time_ctor(ex, cls, args, kwargs, node):
+        vals = list(args) + [VInt(0)] * (4 - len(args))
+        if kwargs or len(args) > 4:
+            raise Unsupported("time(...) with keywords")
+        return VRec(world.models["Time"], dict(zip(("hour", "minute", "second", "microsecond"), vals)), ref=ex.fresh("time", V))
+    tc = world.models["Time"].class_model.class_value(None)
+    world.models["Time"].class_model.construct = time_ctor
+    world.ext_table["datetime.time"] = tc
+
+
+_C.INSTALLERS.append(_install_dt)
+
+@specfn("clock_of_parsed")
+def _clock_of_parsed(ex, fr, field):
+    """field `hour` / `minute` / `second` / `microsecond` of the datetime that to_datetime returned in this execution"""
+    rec = getattr(ex, "last_to_datetime", None)
+    if rec is None:
+        return VInt(ex.fresh("no_parsed_datetime", I))      # on a path that never called to_datetime: unconstrained
+    return rec.fields[field.const()]
+
+
+@contract(T, "TypeTransformer.to_datetime", props=["C12"])
+class TO_DATETIME_IFACE:
+    """interface for to_date: returns a datetime (any clock fields) or raises; the body (strptime over the format
+    tables) is outside the subset -- its two scaling loops are verified separately (C04)"""
+    cases = {"any": dict(self=TR(), data=OBJ, t=Cls(name="t"), date_first=BOOL)}
+    only_raises = ["Exception"]
+    trusted = "strptime / utcfromtimestamp over the format tables: external; only the SHAPE of the result (a datetime) is used"
+
+    @staticmethod
+    def result(ex, fr):
+        rec = ex.world.models["Datetime"].fresh(ex, "parsed_dt!%d" % next(ex.counter))
+        ex.last_to_datetime = rec
+        return rec
+
+
+@contract(T, "TypeTransformer.to_date", props=["C12", "C01"])
+class TO_DATE:
+    """C12 `a datetime or timed string never becomes a date` under no_data_loss: a datetime input is rejected, and
+    whatever else converts went through to_datetime and produced a datetime whose clock part is exactly 00:00:00.000000."""
+    cases = {"datetime": dict(self=TR(), data=Rec("Datetime"), t=Cls(name="t")),
+             "other": dict(self=TR(), data=OBJ_NN, t=Cls(name="t"))}
+    returns_by_case = {
+        "datetime": {"a_datetime_never_becomes_a_date_without_loss": "not self.no_data_loss"},
+        "other": {"no_time_part_is_dropped": "implies(self.no_data_loss and not isinst(data, t), clock_of_parsed('hour') == 0 and "
+                                             "clock_of_parsed('minute') == 0 and clock_of_parsed('second') == 0 and "
+                                             "clock_of_parsed('microsecond') == 0)",
+                  "a_date_is_returned_as_it_is": "implies(isinst(data, t), result is data)"},
+    }
+    only_raises = ["Exception"]
+    frame = ["data", "self"]
+    assumes = ["t is date or a subclass; case `other`: data is not a datetime instance",
+               "to_datetime is an interface here (returns some datetime or raises)"]
+
+    @staticmethod
+    def setup(ex, frame):
+        d = frame.env["data"]
+        t = frame.env["t"]
+        ex.assume(sym.sub(t.t, ex.world.classes.of_py(_dt.date).t))
+        if ex.case_name == "other":
+            ex.assume(z3.Not(sym.sub(sym.ty(d.t), ex.world.classes.of_py(_dt.datetime).t)))
+        ex.last_to_datetime = None
